@@ -55,9 +55,40 @@ def _lit(rng, depth=0):
     return "^{:tag :" + rng.choice(KW_POOL) + "} [" + _lit(rng, depth + 1) + "]"
 
 
+def _big_const(rng, i, n):
+    """A large quoted collection (sizes around plausible compiler thresholds) whose members' hashes matter."""
+    size = rng.choice([8, 16, 31, 32, 33, 40, 64, 130])
+    kind = rng.choice(["set", "map", "vec", "list"])
+    mk = rng.choice(["sym", "sym", "nssym", "kw", "str", "mixed"])
+
+    def member(j):
+        m = mk if mk != "mixed" else ("sym", "kw", "str", "nssym")[j % 4]
+        if m == "sym":
+            return f"op-{j:02d}"
+        if m == "nssym":
+            return f"tbl.n{j % 3}/op-{j:02d}"
+        if m == "kw":
+            return f":op-{j:02d}"
+        return f'"op-{j:02d}"'
+    ms = [member(j) for j in range(size)]
+    probe = [ms[0], ms[size // 2], ms[-1]]
+    q = lambda t: t if t[0] in ':"' else "'" + t        # noqa: E731
+    if kind == "set":
+        return [f"(def {n} '#{{{' '.join(ms)}}})"], [(n, q(p)) for p in probe] + [(n, "'absent")]
+    if kind == "map":
+        return [f"(def {n} '{{{' '.join(f'{m} {j}' for j, m in enumerate(ms))}}})"], \
+            [(n, q(p)) for p in probe] + [(n, "'absent")]
+    body = " ".join(ms)
+    form = f"(def {n} '[{body}])" if kind == "vec" else f"(def {n} '({body}))"
+    return [form, f"(def {n}-idx (zipmap {n} (range)))", f"(defn {n}-has? [x] (contains? (set {n}) x))"], \
+        [(f"{n}-idx", q(p)) for p in probe] + [(f"{n}-has?", q(probe[1])), (f"{n}-has?", "'absent")]
+
+
 def _unit_extra(rng, i, n):
-    c = rng.randrange(9)
+    c = rng.randrange(11)
     k = rng.choice(KW_POOL)
+    if c >= 9:
+        return _big_const(rng, i, n)
     if c == 0:      # several defs under one top-level do (unrolled by the compiler)
         return [f"(do (def {n} {_lit(rng)}) (def {n}-b {_lit(rng)}) (def {n}-c [{n} {n}-b]))"], []
     if c == 1:      # load-time, namespace dependent
